@@ -193,7 +193,7 @@ void E5(BodyCtx& c) { engineBody(c, 1, false, true); }
 // ---------------------------------------------------------------------------
 // Execution queues: every job exactly once before destruction, never more in
 // flight than lanes, started/finished paired.
-static void queueBody(BodyCtx& ctx, int kind, int lanes, bool canceller) {
+static void queueBody(BodyCtx& ctx, int kind, int lanes, bool canceller, bool lateHigh = false) {
   QDelegate del;
   std::atomic<int> ran[4];
   for (auto& r : ran) r = 0;
@@ -224,7 +224,8 @@ static void queueBody(BodyCtx& ctx, int kind, int lanes, bool canceller) {
     q->addJob(basic::QueueJob(&d0, [&, qp](basic::QueueJobContext*) {
       body(0);
       // a job that adds a job
-      qp->addJob(basic::QueueJob(&d3, [&](basic::QueueJobContext*) { body(3); }));
+      qp->addJob(basic::QueueJob(&d3, [&](basic::QueueJobContext*) { body(3); }),
+                 lateHigh ? basic::QueueJobPriority::High : basic::QueueJobPriority::Normal);
       std::lock_guard<std::mutex> g(subM);
       submitted = true;
       subC.notify_one();
@@ -290,6 +291,9 @@ void P1(BodyCtx& c) { procBody(c, 0); }
 void P2(BodyCtx& c) { procBody(c, 1); }
 
 void Q1(BodyCtx& c) { queueBody(c, 0, 2, false); }
+// the job submitted from inside a job is High priority: it can be the only thing pending when the queue shuts down
+void Q5(BodyCtx& c) { queueBody(c, 0, 2, false, true); }
+void Q6(BodyCtx& c) { queueBody(c, 0, 1, false, true); }
 void Q2(BodyCtx& c) { queueBody(c, 0, 2, true); }
 void Q3(BodyCtx& c) { queueBody(c, 1, 1, false); }
 void Q4(BodyCtx& c) { queueBody(c, 1, 1, true); }
@@ -306,6 +310,8 @@ const Body kBodies[] = {
     {"Q2-lane-queue-canceller", "C16", 1, 2, false, Q2},
     {"Q3-serial-queue", "C16", 2, 3, true, Q3},
     {"Q4-serial-queue-canceller", "C16", 1, 2, false, Q4},
+    {"Q5-lane-queue-late-high-priority-job", "C16", 2, 3, true, Q5},
+    {"Q6-lane-queue-1-lane-late-high-priority-job", "C16", 2, 3, true, Q6},
     {"P1-lane-queue-launch-vs-cancel", "C16", 1, 2, false, P1},
     {"P2-serial-queue-launch-vs-cancel", "C16", 1, 2, false, P2},
 };
